@@ -109,8 +109,10 @@ def r1_shape(ctx, lk):
         fold(idx, env)
         ok, why = True, ""
     except Unfoldable as e:
-        ok, why = False, "the index expression contains an operator the folder does not know (%s): anchor lost" % e
-    ctx.ob(rid, "index-foldable", ok, why, ctx.where(f))
+        ctx.lost(rid, "the index expression contains an operator the folder does not know (%s)" % e)
+        ok, why = None, ""
+    if ok is not None:
+        ctx.ob(rid, "index-foldable", ok, why, ctx.where(f))
     return not bad and ok
 
 
